@@ -7,6 +7,7 @@
      [k |-> "fail"]            the name cannot be encoded as valid labels: nothing may be transmitted
      [k |-> "seq", names]      exactly these question names, in this order (resolv.conf(5) search order)
      [k |-> "first", names]    the first question is names[1]; later ones are any of `names`
+                               (with mayfail: the request may also fail without transmitting anything)
    The bytes actually captured are judged by DnsMsg!QueryOK in DnsMsgV (binding V). *)
 EXTENDS DnsMsg
 
@@ -56,7 +57,8 @@ QueryFor(nm, search, ndots, flags) ==
      ELSE IF raw = <<>> THEN [k |-> "first", names |-> <<raw>>]            \* the root: undocumented, only well-formedness is demanded
      ELSE IF flags = NO_SEARCH \/ search = <<>> THEN [k |-> "seq", names |-> <<raw>>]
      ELSE IF nm.trail THEN [k |-> "first", names |-> <<raw>> \o usable]      \* absolute name: searching it is not documented either way
-     ELSE IF usable # cands THEN [k |-> "first", names |-> (IF Dots(nm) >= ndots THEN <<raw>> ELSE <<>>) \o usable \o <<raw>>]
+     ELSE IF usable # cands THEN [k |-> "first", mayfail |-> TRUE,      \* a search candidate does not fit: failing the request is admissible
+                                  names |-> (IF Dots(nm) >= ndots THEN <<raw>> ELSE <<>>) \o usable \o <<raw>>]
      ELSE IF Dots(nm) >= ndots THEN [k |-> "seq", names |-> <<raw>> \o cands]
      ELSE [k |-> "seq", names |-> cands \o <<raw>>]
 
